@@ -194,24 +194,37 @@ Definition skip_itmd (max_itmd_dim : option nat) (tg : list index) (c : contract
   | Some d => negb (ilist_eqb (c_target c) tg) && (d <? length (c_target c))
   end.
 
+(* the guard added by the fix of the non-closed-group defect:
+     if any(idx in relevant_obj_indices[pos] for pos in remaining_pos
+            for idx in contraction.contracted): continue *)
+Definition leaks (c : contraction) (remaining : list (list index)) : bool :=
+  existsb (fun ix => existsb (fun x => imem x ix) (c_contracted c)) remaining.
+
+(* body of the `for group in connected_groups` loop; [rec] is the recursive
+   call of the generator *)
+Definition enum_step (rec : N -> list oname -> list (list index) -> list scheme * N)
+  (tg : list index) (mid : option nat) (names : list oname) (idxs : list (list index))
+  (st : list scheme * N) (group : list nat) : list scheme * N :=
+  let '(acc, cnt) := st in
+  let c := mk_contraction cnt (map (fun p => nth p names dflt_name) group)
+                          (map (nth_idx idxs) group) tg in
+  let cnt := N.succ cnt in
+  if skip_itmd mid tg c then (acc, cnt) else
+  let rem := filter (fun p => negb (nmem p group)) (seq 0 (length names)) in
+  if leaks c (map (nth_idx idxs) rem) then (acc, cnt) else
+  let rnames := NContr (c_id c) :: map (fun p => nth p names dflt_name) rem in
+  let ridx := c_target c :: map (nth_idx idxs) rem in
+  if length rnames =? 1 then (acc ++ [[c]], cnt) else
+  let '(subs, cnt') := rec cnt rnames ridx in
+  (acc ++ map (cons c) subs, cnt').
+
 Fixpoint enum (fuel : nat) (tg : list index) (mid mg : option nat) (cnt : N)
   (names : list oname) (idxs : list (list index)) : list scheme * N :=
   match fuel with
   | 0 => ([], cnt)
   | S f =>
-    fold_left (fun (st : list scheme * N) (group : list nat) =>
-      let '(acc, cnt) := st in
-      let c := mk_contraction cnt (map (fun p => nth p names dflt_name) group)
-                              (map (nth_idx idxs) group) tg in
-      let cnt := N.succ cnt in
-      if skip_itmd mid tg c then (acc, cnt) else
-      let rem := filter (fun p => negb (nmem p group)) (seq 0 (length names)) in
-      let rnames := NContr (c_id c) :: map (fun p => nth p names dflt_name) rem in
-      let ridx := c_target c :: map (nth_idx idxs) rem in
-      if length rnames =? 1 then (acc ++ [[c]], cnt) else
-      let '(subs, cnt') := enum f tg mid mg cnt rnames ridx in
-      (acc ++ map (cons c) subs, cnt'))
-      (group_objects idxs tg mg) ([], cnt)
+    fold_left (enum_step (enum f tg mid mg) tg mid names idxs)
+              (group_objects idxs tg mg) ([], cnt)
   end.
 
 Definition enumerate_schemes (tg : list index) (mid mg : option nat) (cnt : N)
@@ -271,8 +284,6 @@ Fixpoint relevant_objs (os : list tobj) : option (list obj) :=   (* None: NotImp
 (* result of optimize_contractions *)
 Inductive opt_result :=
 | OEmpty                         (* [] : no tensors or deltas *)
-| OTypeError                     (* single object with indices: Contraction(indices=<flat tuple>) raises *)
-| OBare (c : contraction)        (* single object without indices: a bare Contraction, not a list *)
 | OAssert                        (* max_n_simultaneous_contracted < 2 *)
 | ONoScheme                      (* RuntimeError *)
 | OScheme (s : scheme) (cnt : N).
@@ -281,10 +292,8 @@ Definition optimize_contractions (cnt : N) (objs : list obj) (tg : list index)
   (mid mg : option nat) : opt_result :=
   match objs with
   | [] => OEmpty
-  | [o] => match snd o with
-           | [] => OBare (mk_contraction cnt [] [] tg)   (* names is a str, indices () *)
-           | _ => OTypeError
-           end
+  | [o] => (* trivial: a single tensor/delta (resorting of indices, trace) *)
+           OScheme [mk_contraction cnt [fst o] [snd o] tg] (N.succ cnt)
   | _ =>
     match mg with
     | Some m => if m <? 2 then OAssert else
@@ -440,8 +449,7 @@ Definition contraction_eqb (a b : contraction) : bool :=
 Definition scheme_eqb := list_eqb contraction_eqb.
 Definition opt_result_eqb (a b : opt_result) : bool :=
   match a, b with
-  | OEmpty, OEmpty | OTypeError, OTypeError | OAssert, OAssert | ONoScheme, ONoScheme => true
-  | OBare x, OBare y => contraction_eqb x y
+  | OEmpty, OEmpty | OAssert, OAssert | ONoScheme, ONoScheme => true
   | OScheme x n, OScheme y m => scheme_eqb x y && N.eqb n m
   | _, _ => false
   end.
